@@ -22,6 +22,9 @@ def be32 (a b c d : UInt8) : Nat := a.toNat * 16777216 + b.toNat * 65536 + c.toN
 /-- MAXIMUM_VARIABLE_LENGTH_INTEGER = 2^28 - 1 -/
 def maxVli : Nat := 268435455
 
+/-- the largest MQTT packet: first byte, four bytes of remaining length, the largest remaining length -/
+def maxPacket : Nat := 268435460
+
 /-- `compute_variable_length_integer_encode_size` -/
 def vliSize (v : Nat) : Option Nat :=
   if v < 128 then some 1
